@@ -64,6 +64,16 @@ def timesOf (w : World) (o : Nat) : Option (Int × Int) :=
 
 def durOf (w : World) (o : Nat) : Option Int := (Eval.query w (.dur o)).run' {}
 
+/-- Where the code evaluates `has_relation` of a group (latest-of) link it computes end times, and raises
+    `RecursionError` when the relation structure is cyclic.  The listing does so for every node it visits;
+    `multiDefined` is that guard: every group link met by the (recursive) listing of `c` has a defined reference. -/
+def multiDefined (w : World) : Nat → Nat → Bool
+  | 0, _ => true
+  | f+1, c =>
+    (listing (w.op c).graph).all (fun n =>
+      ((!(w.lnk (w.op n).link).multi) || (w.lnk (w.op n).link).refs.isEmpty || (w.refOf (w.op n).link).isSome) &&
+      ((!(w.op n).isComp) || multiDefined w f n))
+
 /-- canonical listing of a circuit: also returns the (mutated) world. -/
 def showListing (w : World) (c : Nat) : World × String :=
   let (w, ops) := w.operations c
@@ -74,6 +84,9 @@ def showListing (w : World) (c : Nat) : World × String :=
     match timesOf w o with
     | none => (w, out, false)
     | some (s, d) =>
+      -- the acquisition index scans the listing of the registry's reference circuit (possibly ANOTHER circuit): the same
+      -- `has_relation` evaluations, the same `RecursionError` when a group link met there has no defined reference
+      if op.cls == .measure && !multiDefined w w.depthFuel op.reg then (w, out, false) else
       let (w, acq) :=
         if op.cls == .measure then
           let (w, (ql, cl)) := w.acq o
@@ -123,16 +136,6 @@ def dumpWorld (s : Sess) : String :=
   let dreg := jsonList (w.dreg.map (fun p => jsonList [toString p.1, toString p.2]))
   "{" ++ s!"\"ops\":{jsonList (w.ops.toList.map dumpOp)},\"links\":{links},\"dreg\":{dreg}," ++
     s!"\"circs\":{jsonList (s.circs.toList.map toString)}" ++ "}"
-
-/-- Where the code evaluates `has_relation` of a group (latest-of) link it computes end times, and raises
-    `RecursionError` when the relation structure is cyclic.  The listing does so for every node it visits;
-    `multiDefined` is that guard: every group link met by the (recursive) listing of `c` has a defined reference. -/
-def multiDefined (w : World) : Nat → Nat → Bool
-  | 0, _ => true
-  | f+1, c =>
-    (listing (w.op c).graph).all (fun n =>
-      ((!(w.lnk (w.op n).link).multi) || (w.lnk (w.op n).link).refs.isEmpty || (w.refOf (w.op n).link).isSome) &&
-      ((!(w.op n).isComp) || multiDefined w f n))
 
 def step (s : Sess) (toks : List String) : Sess × String :=
   let bad := (s, "bad-op")
